@@ -4,6 +4,7 @@
   derive the well-formedness (`wfTree`) the listener relies on.
 -/
 import Cpf.Lemmas.Recog
+import Cpf.Lemmas.Dedup
 import Cpf.Query.WF
 import Cpf.Generated.Grammar
 
@@ -212,7 +213,7 @@ theorem accepted_trees_wf (fuel : Nat) (start : String) (ts : List Token) (t : P
     (h : t ∈ parsesOf grammar fuel start ts) : wfTree t = true := by
   simp only [parsesOf, List.mem_filterMap] at h
   obtain ⟨p, hp, hsome⟩ := h
-  have hm := parse_matches grammar fuel (.nt start) ts p hp
+  have hm := parse_matches grammar fuel (.nt start) ts p (parseD_sub grammar fuel (.nt start) ts p hp)
   obtain ⟨forest, rest⟩ := p
   have hconf := matches_conf grammar hm
   cases forest with
